@@ -6,6 +6,8 @@ import EaselModel.Dsqdata.RoundTrip
 import EaselModel.Dsqdata.Meta
 import EaselModel.Threads.Lemmas
 import EaselModel.Pipeline.WakeSteps
+import EaselModel.Pipeline.ConstT
+import EaselModel.Dsqdata.FormatLemmas
 /-! # C12 — property theorems (statements + glue only; lemmas live in WorkQueue/*.lean, Dsqdata/*.lean)
 
 Work queue (`esl_workqueue.c`): every theorem is about *all* states reachable from `esl_workqueue_Create(size)` by
@@ -240,6 +242,116 @@ theorem dsq_chunks_are_the_database (amino : Bool) (ds : List (List UInt8)) (ms 
 /-- the guarantee is needed: a sequence with more packets than a chunk holds makes the loader overrun its buffer -/
 example : loaderChunks 4 10 3 (LState.init (indexOf ([3, 11].zip [5, 5]) 0 0)) = none := by decide
 
+
+/-! ## the on-disk format at byte level: `esl_dsqdata_Write` → four files → `esl_dsqdata_Open` → loader `fread`s → unpacker
+
+`writeDb tag alphatype fname fmt db` are the BYTES of the stub, `.dsqi`, `.dsqm`, `.dsqs` files `esl_dsqdata_Write` produces
+for the records `db` (`tag` = the random `uniquetag`), `openDb` is `esl_dsqdata_Open`'s validation of four byte strings,
+`readDb maxseq maxpacket` runs `dsqdata_loader_thread`'s main loop (three `fread`s per chunk) and `dsqdata_unpack_chunk`
+over the opened bytes. `SeqRec.Wf`: name/accession/description are C strings (no NUL), the taxonomy id fits an
+`int32_t`, residue codes ≤ 30. -/
+section bytes
+open EaselModel.Dsqdata
+
+/-- **`Open (Write db) = ok` with the stated counts**, for every database the writer accepts (protein, DNA or RNA; every
+    sequence shorter than `6 · eslDSQDATA_CHUNK_MAXPACKET`), every tag, with or without a caller-supplied alphabet of the
+    right type: the header fields read back are the tag, the alphabet type, the maximum lengths, `nseq`, `nres`
+    (`writtenHeader`), 5-bit mode iff protein, and the three data files are positioned behind their headers. -/
+theorem dsq_open_written (tag alphatype : Nat) (fname fmt : List UInt8) (db : List SeqRec)
+    (hty : alphatype = 1 ∨ alphatype = 2 ∨ alphatype = 3) (hlen : ∀ r ∈ db, r.dsq.length < 6 * MAXPACKET)
+    (expect : Option Nat) (hexp : expect = none ∨ expect = some alphatype) :
+    ∃ f, writeDb tag alphatype fname fmt db = .ok f ∧
+      openDb expect f = .ok (writtenHeader tag alphatype (alphatype == 3) db) ∧
+      (writtenHeader tag alphatype (alphatype == 3) db).nseq = db.length % 2 ^ 64 ∧
+      (writtenHeader tag alphatype (alphatype == 3) db).nres = (db.map fun r => r.dsq.length).sum % 2 ^ 64 :=
+  let ⟨f, h1, h2⟩ := openDb_writeDb tag alphatype fname fmt db hty hlen expect hexp
+  ⟨f, h1, h2, rfl, rfl⟩
+
+/-- **Bytes → database, end to end.** For EVERY database of well-formed records, every tag, every `chunk_maxseq ≥ 1` and
+    every `chunk_maxpacket` that holds the longest packed sequence: the files written by `esl_dsqdata_Write` are accepted by
+    `esl_dsqdata_Open`, and the byte-level loader + unpacker run to the end of data without fault or short read and deliver
+    chunks `out` such that
+    * the concatenation of the chunks' records, in chunk order, is exactly `db` - every record once, with its own name,
+      accession, description, taxonomy id (all four bytes, e.g. ids ≥ 0x80) and residues;
+    * chunk `j` starts at record `i0 = Σ_{k<j} N_k`, holds `1 ≤ N ≤ maxseq` records, `pn ≤ maxpacket` packets (`Tiles`).
+    (`2^63`: the index stores positions as `int64_t`.) The number of unpackers and consumers does not enter: by `pipe_order`
+    the chunks are handed out in this order whatever the schedule - see `dsq_threaded_read_is_database`. -/
+theorem dsq_bytes_round_trip (tag alphatype : Nat) (fname fmt : List UInt8) (db : List SeqRec) (maxseq : Nat) (maxpacket : Int)
+    (hty : alphatype = 1 ∨ alphatype = 2 ∨ alphatype = 3) (hwf : ∀ r ∈ db, r.Wf)
+    (hlen : ∀ r ∈ db, r.dsq.length < 6 * MAXPACKET) (hms : 1 ≤ maxseq)
+    (hfit : ∀ r ∈ db, ((pk (alphatype == 3) r.dsq).length : Int) ≤ maxpacket)
+    (h1 : (db.map fun r => (pk (alphatype == 3) r.dsq).length).sum < 2 ^ 63)
+    (h2 : (db.map fun r => (encodeMeta (metaOf r)).length).sum < 2 ^ 63)
+    (expect : Option Nat) (hexp : expect = none ∨ expect = some alphatype) :
+    ∃ f o out, writeDb tag alphatype fname fmt db = .ok f ∧ openDb expect f = .ok o ∧
+      readDb maxseq maxpacket o = some out ∧ out.flatMap (·.2) = db ∧
+      Tiles (alphatype == 3) db maxseq maxpacket 0 out := by
+  obtain ⟨f, hw, ho⟩ := openDb_writeDb tag alphatype fname fmt db hty hlen expect hexp
+  obtain ⟨out, hr, ht⟩ := readDb_written tag alphatype db maxseq maxpacket hwf hms hfit h1 h2
+  exact ⟨f, _, out, hw, ho, hr, by simpa using tiles_flatten_db _ db maxseq maxpacket out 0 ht, ht⟩
+
+/-- with the library's own limits (`eslDSQDATA_CHUNK_MAXSEQ`, `eslDSQDATA_CHUNK_MAXPACKET`) the hypothesis "`maxpacket` holds
+    the longest packed sequence" is the writer's guarantee `L < 6 · eslDSQDATA_CHUNK_MAXPACKET` -/
+theorem dsq_bytes_round_trip_defaults (tag alphatype : Nat) (fname fmt : List UInt8) (db : List SeqRec)
+    (hty : alphatype = 1 ∨ alphatype = 2 ∨ alphatype = 3) (hwf : ∀ r ∈ db, r.Wf)
+    (hlen : ∀ r ∈ db, r.dsq.length < 6 * MAXPACKET)
+    (h1 : (db.map fun r => (pk (alphatype == 3) r.dsq).length).sum < 2 ^ 63)
+    (h2 : (db.map fun r => (encodeMeta (metaOf r)).length).sum < 2 ^ 63) :
+    ∃ f o out, writeDb tag alphatype fname fmt db = .ok f ∧ openDb none f = .ok o ∧
+      readDb MAXSEQ MAXPACKET o = some out ∧ out.flatMap (·.2) = db := by
+  have hfit : ∀ r ∈ db, ((pk (alphatype == 3) r.dsq).length : Int) ≤ (MAXPACKET : Nat) := by
+    intro r hr
+    have hl := hlen r hr
+    have hc := codec_packet_count r.dsq
+    have : (pk (alphatype == 3) r.dsq).length ≤ MAXPACKET := by
+      unfold pk; split
+      · rw [hc.1]; simp only [MAXPACKET] at hl ⊢; omega
+      · have := hc.2.2; simp only [MAXPACKET] at hl ⊢; omega
+    exact_mod_cast this
+  obtain ⟨f, o, out, a, b, c, d, _⟩ := dsq_bytes_round_trip tag alphatype fname fmt db MAXSEQ (MAXPACKET : Nat) hty hwf hlen
+    (by decide) hfit h1 h2 none (Or.inl rfl)
+  exact ⟨f, o, out, a, b, c, d⟩
+
+/-- **A corrupted magic or tag is answered `eslEFORMAT`.** In the files written for any database, replace the magic `m` and/or
+    the tag `t` at the head of ONE of the three data files (every 8-byte string is `le32 m ++ le32 t` for some `m`, `t`):
+    `esl_dsqdata_Open` returns the documented `eslEFORMAT` - "index file has bad tag" (18), "index file has bad magic" (19),
+    "metadata file has bad magic/tag" (24/25), "sequence file has bad magic/tag" (28/29) - except that the byteswapped magic
+    in the index file is the `eslEUNIMPLEMENTED` exception ("cannot yet read data in different byte orders"). -/
+theorem dsq_open_corrupt_header (tag alphatype : Nat) (fname fmt : List UInt8) (db : List SeqRec) (f : Files)
+    (hty : alphatype = 1 ∨ alphatype = 2 ∨ alphatype = 3) (hw : writeDb tag alphatype fname fmt db = .ok f)
+    (expect : Option Nat) (hexp : expect = none ∨ expect = some alphatype) (m t : Nat) :
+    (t % 4294967296 ≠ tag % 4294967296 → openDb expect (patchIdx f m t) = .eformat 18) ∧
+    (t % 4294967296 = tag % 4294967296 → m % 4294967296 = MAGIC_SWAP → openDb expect (patchIdx f m t) = .eunimplemented) ∧
+    (t % 4294967296 = tag % 4294967296 → m % 4294967296 ≠ MAGIC_SWAP → m % 4294967296 ≠ MAGIC →
+        openDb expect (patchIdx f m t) = .eformat 19) ∧
+    (m % 4294967296 ≠ MAGIC → openDb expect (patchMdat f m t) = .eformat 24) ∧
+    (m % 4294967296 = MAGIC → t % 4294967296 ≠ tag % 4294967296 → openDb expect (patchMdat f m t) = .eformat 25) ∧
+    (m % 4294967296 ≠ MAGIC → openDb expect (patchSeq f m t) = .eformat 28) ∧
+    (m % 4294967296 = MAGIC → t % 4294967296 ≠ tag % 4294967296 → openDb expect (patchSeq f m t) = .eformat 29) :=
+  open_corrupt tag alphatype fname fmt db f hty hw expect hexp m t
+
+/-- the tag line of the stub file round-trips through `fprintf` / `fgets`+`strtok`+`strtoul`, whatever follows it -/
+theorem dsq_stub_tag (tag : Nat) (rest : List UInt8) : parseStub (stubLine1 tag ++ rest) = .ok (tag % 4294967296) :=
+  parseStub_stubLine1 tag rest
+
+
+/-- non-vacuity: a DNA database of two records (a taxonomy id with a byte ≥ 0x80, an empty sequence), one record per chunk -/
+def demoDb : List SeqRec := [⟨[115, 49], [65], [100, 32, 101], 9734, [0, 1, 2, 3, 15, 0]⟩, ⟨[115, 50], [], [], 4294967295, []⟩]
+example : ∀ r ∈ demoDb, r.Wf := by
+  intro r hr
+  simp only [demoDb, List.mem_cons, List.not_mem_nil, or_false] at hr
+  rcases hr with rfl | rfl <;> (unfold SeqRec.Wf; decide)
+example : (match writeDb 305419896 2 [] [] demoDb with
+    | .ok f => (match openDb none f with
+      | .ok o => (readDb 1 4 o).map (fun out => (out.map fun c => (c.1.i0, c.1.n, c.1.pn), out.flatMap (·.2)))
+      | _ => none)
+    | _ => none) = some ([(0, 1, 1), (1, 1, 1)], demoDb) := by decide +kernel
+
+/-- a wrong alphabet is refused: caller expects `t`, the files say otherwise -/
+example : openDb (some 3) (match writeDb 7 2 [] [] [] with | .ok f => f | _ => ⟨[], [], [], []⟩) = .eformat 20 := by decide +kernel
+
+end bytes
+
 /-! ## esl_threads start rendezvous (`AddThread`, `WaitForStart`, `Started`), every schedule, any number of workers -/
 section threads
 open EaselModel.Threads
@@ -364,6 +476,23 @@ example : ∃ s, Pipeline.run (Pipeline.Sys.create 2 3 2)
     [.loader, .loader, .loader, .unpacker 0, .loader, .loader, .loader, .unpacker 1, .unpacker 0, .read 7, .unpacker 1, .read 8, .recycle 7 0 0]
       = some s ∧ s.returned = [0, 1] ∧ s.cheld = [(8, (1, 1))] ∧ s.recycling = [0] := by
   refine ⟨_, rfl, ?_, ?_, ?_⟩ <;> decide
+
+/-- **The threaded reader delivers the database, from bytes, for every schedule.** Let `out` be the chunks of the byte-level
+    read (`dsq_bytes_round_trip`) and `s` any state the pipeline model reaches - any number `U ≥ 1` of unpackers, any number of
+    consumers, any interleaving - on a database of `out.length` chunks. Then the chunks `esl_dsqdata_Read` has handed out so
+    far are, in `nchunk` order, the first `s.nchunk` chunks - their records are a prefix of `db` - and once any consumer has
+    been told `eslEOF` they are all of them: the concatenation of their records is exactly `db`. -/
+theorem dsq_threaded_read_is_database {U C : Nat} (hU : 0 < U) (amino : Bool) (db : List Dsqdata.SeqRec) (maxseq : Nat)
+    (maxpacket : Int) (out : List (Dsqdata.BChunk × List Dsqdata.SeqRec)) (ht : Dsqdata.Tiles amino db maxseq maxpacket 0 out)
+    {s : Pipeline.Sys} (h : Pipeline.Reachable U out.length C s) :
+    (s.returned.flatMap fun k => (out.getD k Dsqdata.noChunk).2) = (out.take s.nchunk).flatMap (·.2) ∧
+    (s.eofs ≠ [] → (s.returned.flatMap fun k => (out.getD k Dsqdata.noChunk).2) = db) := by
+  have hT := Pipeline.reachable_T h
+  have hord := pipe_order hU h
+  refine ⟨?_, fun he => ?_⟩
+  · rw [hord.1]; exact Dsqdata.range_flatMap_take out _ s.nchunk (by rw [← hT]; exact hord.2)
+  · rw [pipe_eof_after_all hU h he, hT, Dsqdata.range_flatMap_take out _ out.length (Nat.le_refl _), List.take_length]
+    simpa using Dsqdata.tiles_flatten_db amino db maxseq maxpacket out 0 ht
 end pipeline
 
 end EaselModel.Props.C12
